@@ -222,10 +222,22 @@ func genFederationSDL(r *rand.Rand) *genFed {
 	// roots
 	used := map[string]bool{}
 	var qf []string
+	declares := map[string]bool{}
+	for _, ds := range decl {
+		for _, s := range ds {
+			declares[s] = true
+		}
+	}
 	for _, s := range svcs {
 		n := 1 + r.Intn(3)
 		for i := 0; i < n; i++ {
 			fn := usedName(used)
+			if len(btypes) == 0 && !declares[s] && !used["node"] && r.Intn(2) == 0 {
+				// "node" is only special with its former signature node(id: ID!): Node; in a federation without boundary types
+				// (so that no service schema uses @boundary) a service may use the name for anything
+				fn = "node"
+				used["node"] = true
+			}
 			t := refFor(s, 0)
 			if s == ifaceSvc && r.Intn(3) == 0 {
 				t = wrapType(r, ifaceName, true)
